@@ -7,8 +7,8 @@
                                implementation's tie order is unspecified and every order is accepted by the checker)
      rank values failed r      number of successful s with [precedes values s r]  = ascending rank of r
      selected values failed first last r = succeeded r && first <= rank r <= last *)
-From Coq Require Import String QArith ZArith Bool Arith List.
-From Ropt Require Import Base.Num Base.ListX Model.Filters Proofs.SortX Proofs.Filters Proofs.FiltersTies Proofs.FiltersSeq Proofs.FiltersAccept.
+From Coq Require Import String QArith ZArith Bool Arith List Lia.
+From Ropt Require Import Base.Num Base.ListX Model.Filters Proofs.SortX Proofs.Filters Proofs.FiltersTies Proofs.FiltersSeq Proofs.FiltersAccept Proofs.FiltersOrder Proofs.FiltersCut.
 Import ListNotations.
 
 (* the weight of r is its configured weight if r is successful with rank in [first, last], the literal 0 otherwise;
@@ -260,6 +260,38 @@ Theorem C05_checker_sound : forall values cfgw failed first last w,
        (nth r w 0 == 0)%Q).
 Proof. exact window_ok_sound. Qed.
 
+(* ... ALSO on a tie group that is cut by a window edge (Proofs/FiltersCut.v): every accepted vector is, entry by entry, the
+   vector _sort_and_select builds along SOME ranking of the successful realizations with non-decreasing values -- a ranking
+   is constructed that puts exactly the members the vector selects on the ranks of their tie group inside the window *)
+Theorem C05_checker_sound_cut : forall values cfgw failed first last w,
+  length cfgw = length failed -> window_ok values cfgw failed first last w = true ->
+  length w = length failed /\
+  exists idx, valid_order values failed idx /\
+    forall r, (nth r w 0 == nth r (select_along idx cfgw first last) 0)%Q.
+Proof. exact window_ok_realizable. Qed.
+
+(* together with C05_checker_accepts_every_tie_order: window_ok accepts EXACTLY the vectors the code can produce for some
+   order of the ties (up to the representation of the rational entries) *)
+Theorem C05_checker_exact : forall values cfgw failed first last w,
+  length cfgw = length failed ->
+  (window_ok values cfgw failed first last w = true <->
+   length w = length failed /\
+   exists idx, valid_order values failed idx /\
+     forall r, (nth r w 0 == nth r (select_along idx cfgw first last) 0)%Q).
+Proof. exact window_ok_iff. Qed.
+
+(* in counts, for the tie group of any successful r (cut or not): the number of members carrying a non-zero entry is the
+   number of ranks grp_lo r .. grp_ge r - 1 of the group that fall inside [first, last] -- exactly when no member of the
+   group has configured weight 0, otherwise up to the members whose configured weight is 0; WHICH members is free
+   (C05_checker_accepts_every_tie_order) *)
+Theorem C05_checker_group_count : forall values cfgw failed first last w r,
+  window_ok values cfgw failed first last w = true -> succeeded failed r = true ->
+  let nsel := countb (fun s => same_key values r s && negb (Qeqb (nth s w 0%Q) 0%Q)) (successes failed) in
+  let nzero := countb (fun s => same_key values r s && Qeqb (nth s cfgw 0%Q) 0%Q) (successes failed) in
+  let quota := (Nat.min (grp_ge values failed r) (last + 1) - Nat.max (grp_lo values failed r) first)%nat in
+  (nsel <= quota <= nsel + nzero)%nat /\ (nzero = 0%nat -> nsel = quota).
+Proof. exact window_ok_group_count. Qed.
+
 (* non-vacuity: 4 realizations, the second failed, window [0,1] over the 3 successes; realization 2 (value 2, rank 0)
    and realization 0 (value 3, rank 1) are selected, realization 2 has configured weight 0 *)
 Example C05_example :
@@ -291,6 +323,34 @@ Example C05_example_step :
             run_evalstep env (ReqB [0; 1]%nat) = ([], Ok 1%Z).
 Proof. vm_compute. eexists. repeat split; reflexivity. Qed.
 
+(* non-vacuity of the cut-group theorems: 5 realizations (the last failed), the first three tied on the smallest value;
+   window [1,2] cuts the tie group (ranks 0..2, of which 1 and 2 are inside: quota 2) and ends before rank 3.  Any two
+   members of the group may be selected (three accepted vectors, one of them the model's); selecting one, three, or the
+   untied fourth realization is rejected; with configured weight 0 on a member the count may look smaller *)
+Example C05_example_cut :
+  let values := [Q_ 1 1; Q_ 1 1; Q_ 1 1; Q_ 2 1; Q_ 0 1] in
+  let failed := [false; false; false; false; true] in
+  let c := Q_ 1 5 in
+  let cfgw := [c; c; c; c; c] in
+  length cfgw = length failed /\
+  map (grp_lo values failed) [0; 1; 2; 3]%nat = [0; 0; 0; 3]%nat /\ map (grp_ge values failed) [0; 1; 2; 3]%nat = [3; 3; 3; 4]%nat /\
+  sort_and_select values cfgw failed 1 2 = [0; c; c; 0; 0]%Q /\
+  map (window_ok values cfgw failed 1 2) [[0; c; c; 0; 0]; [c; 0; c; 0; 0]; [c; c; 0; 0; 0]]%Q = [true; true; true] /\
+  map (window_ok values cfgw failed 1 2) [[0; 0; c; 0; 0]; [c; c; c; 0; 0]; [0; c; 0; c; 0]; [0; c; c; 0; c]]%Q
+    = [false; false; false; false] /\
+  valid_order values failed [1; 0; 2; 3]%nat /\
+  select_along [1; 0; 2; 3]%nat cfgw 1 2 = [c; 0; c; 0; 0]%Q /\
+  window_ok values [c; 0; c; c; c]%Q failed 1 2 [0; 0; c; 0; 0]%Q = true.
+Proof.
+  cbv zeta. repeat match goal with |- _ /\ _ => split end;
+    try match goal with |- _ = _ => vm_compute; reflexivity end.
+  split.
+  - vm_compute. repeat constructor.
+  - intros i j Hij. assert (Hj : (j < 4)%nat) by (cbn [length] in Hij; lia).
+    destruct j as [|[|[|[|j]]]]; [lia | | | | lia];
+      destruct i as [|[|[|i]]]; try lia; vm_compute; discriminate.
+Qed.
+
 Print Assumptions C05_window.
 Print Assumptions C05_ranking.
 Print Assumptions C05_empty_is_too_few_objective.
@@ -313,3 +373,6 @@ Print Assumptions C05_evaluator_step_exit_code.
 Print Assumptions C05_checker_accepts_every_tie_order.
 Print Assumptions C05_checker_accepts_abort_of_every_tie_order.
 Print Assumptions C05_checker_sound.
+Print Assumptions C05_checker_sound_cut.
+Print Assumptions C05_checker_exact.
+Print Assumptions C05_checker_group_count.
